@@ -501,4 +501,8 @@ class C20(Check):
         return None
 
 
+    def bounded_stand_in(self, tier, undecided):
+        from checks import native
+        return native.stand_in(['C20.'], tier, undecided)
+
 CHECK = C20()
